@@ -703,8 +703,14 @@ func firstIterRefuted(ctx *Ctx, or *OblResult, secs int) bool {
 			if normName(o.Name) != want || o.Bound != "" {
 				continue
 			}
+			if o.Taint.Valid() && o.Taint.S == "true" {
+				continue // reached only through something the under-approximation abstracts (unmodelled call, range-over-func loop)
+			}
 			if o.Taint.Valid() && o.Taint.S != "false" {
-				continue // reached through something the under-approximation abstracts (unmodelled call, range-over-func loop)
+				// abstracted on some paths: the refutation must be on one that is not
+				oc := *o
+				oc.Reach = And(o.Reach, Not(o.Taint))
+				o = &oc
 			}
 			r := Solve(fr.VC, o, secs, false, "fi")
 			if r.Status == "sat" {
